@@ -47,7 +47,7 @@ def run(ctx):
         ctx, "C15", ["model/C14_sync_run.vo", "model/C15_run.vo", "model/C14_wp_run.vo", "model/C14_e2e_run.vo"], stages,
         rule="sync snapshots as in C14; fixStaleLocks: 1-4 looks at 1-4 containers with workers becoming known / the timer firing; "
              "wp: lifecycle operation sequences with every timeout independently 1 ns or 1 h and timeoutTERM 15 ms in a quarter of "
-             "the scenarios; e2e: 20-80 containers (100-500 in thorough), crash rate 0-0.3, arv-mount deadlocks, destroy error rate "
+             "the scenarios, a watchdog expiry (20 s) recorded as a STUCK observation of the case; e2e: 20-80 containers (100-500 in thorough), crash rate 0-0.3, arv-mount deadlocks, destroy error rate "
              "0-0.4, boot delay up to 40 ms, broken / crunch-run-less / self-reporting-broken VMs, create rate limit, one restart in "
              "2/3 of the runs, deadline 30 s (100 s): final states must be Complete/Cancelled and no instance may be left",
         extra={"e2e_notes": notes},
